@@ -59,7 +59,19 @@ type pipeline struct {
 	BatchErr  error
 }
 
+type pipeOpts struct {
+	Race    bool
+	Execute bool
+	Asserts bool
+	Timeout time.Duration
+}
+
 func runPipeline(e *core.Env, name string, cases []*pgen.Case, race, execute bool) (*pipeline, error) {
+	return runPipelineOpts(e, name, cases, pipeOpts{Race: race, Execute: execute})
+}
+
+func runPipelineOpts(e *core.Env, name string, cases []*pgen.Case, po pipeOpts) (*pipeline, error) {
+	race, execute := po.Race, po.Execute
 	bin, err := e.BuildCLI("plain")
 	if err != nil {
 		return nil, err
@@ -73,6 +85,7 @@ func runPipeline(e *core.Env, name string, cases []*pgen.Case, race, execute boo
 			return nil, err
 		}
 	}
+	m.Asserts = po.Asserts
 	p := &pipeline{Mod: m}
 	p.Dropped = m.VetInputs()
 	m.Generate(bin)
@@ -80,6 +93,9 @@ func runPipeline(e *core.Env, name string, cases []*pgen.Case, race, execute boo
 	m.Build(race)
 	if execute {
 		timeout := 10 * time.Minute
+		if po.Timeout > 0 {
+			timeout = po.Timeout
+		}
 		p.BatchErr = m.RunBatch(race, timeout)
 	}
 	return p, nil
